@@ -25,7 +25,29 @@ struct PeerInfo {
 #[derive(Debug, Clone)]
 enum RepState {
   ReadyToReceive,
+  /// A `recv()`/`recv_multipart()` has passed the state check and is waiting for a request. Claimed
+  /// under the state lock so that concurrent receivers cannot both pass the check (and overwrite
+  /// each other's reply address); released by `RepRecvClaim` on error or drop.
+  Receiving,
   ReceivedRequest(PeerInfo),
+}
+
+/// Rolls a claimed `Receiving` state back to `ReadyToReceive` unless a request was received
+/// (covers error returns, timeouts and a dropped/cancelled receive future).
+struct RepRecvClaim<'a> {
+  state: &'a ParkingLotMutex<RepState>,
+  completed: bool,
+}
+
+impl Drop for RepRecvClaim<'_> {
+  fn drop(&mut self) {
+    if !self.completed {
+      let mut g = self.state.lock();
+      if matches!(*g, RepState::Receiving) {
+        *g = RepState::ReadyToReceive;
+      }
+    }
+  }
 }
 
 #[derive(Debug)]
@@ -143,16 +165,33 @@ impl ISocket for RepSocket {
     if !self.core.is_running() {
       return Err(ZmqError::InvalidState("Socket is closing".into()));
     }
-    {
-      let guard = self.state.lock();
-      if !matches!(*guard, RepState::ReadyToReceive) {
+    let claim_result = {
+      let mut guard = self.state.lock();
+      match *guard {
+        RepState::ReadyToReceive => {
+          *guard = RepState::Receiving;
+          Ok(RepRecvClaim { state: &self.state, completed: false })
+        }
+        // Another task's receive is in flight (parked at an await): report after yielding, so that a
+        // caller retrying in a loop cannot starve it on a single-threaded runtime.
+        RepState::Receiving => Err(true),
+        RepState::ReceivedRequest(_) => Err(false),
+      }
+    };
+    let mut recv_claim = match claim_result {
+      Ok(claim) => claim,
+      Err(recv_in_flight) => {
+        if recv_in_flight {
+          tokio::task::yield_now().await;
+        }
         return Err(ZmqError::InvalidState("REP socket must call send() before receiving again"));
       }
-    }
+    };
 
     let rcvtimeo_opt = self.core_state_read().options.rcvtimeo;
     let (peer_info, mut payload_frames) = self.recv_complete_request(rcvtimeo_opt).await?;
     *self.state.lock() = RepState::ReceivedRequest(peer_info);
+    recv_claim.completed = true;
 
     if payload_frames.is_empty() {
       Ok(Msg::new())
@@ -170,14 +209,24 @@ impl ISocket for RepSocket {
       user_payload_frames.push(Msg::new());
     }
 
-    let peer_to_reply_to = {
+    let reply_target = {
       let mut guard = self.state.lock();
       match std::mem::replace(&mut *guard, RepState::ReadyToReceive) {
-        RepState::ReceivedRequest(info) => info,
-        RepState::ReadyToReceive => {
-          *guard = RepState::ReadyToReceive;
-          return Err(ZmqError::InvalidState("REP socket must recv() a request before sending a reply"));
+        RepState::ReceivedRequest(info) => Ok(info),
+        other @ (RepState::ReadyToReceive | RepState::Receiving) => {
+          let recv_in_flight = matches!(other, RepState::Receiving);
+          *guard = other;
+          Err(recv_in_flight)
         }
+      }
+    };
+    let peer_to_reply_to = match reply_target {
+      Ok(info) => info,
+      Err(recv_in_flight) => {
+        if recv_in_flight {
+          tokio::task::yield_now().await;
+        }
+        return Err(ZmqError::InvalidState("REP socket must recv() a request before sending a reply"));
       }
     };
 
@@ -229,16 +278,33 @@ impl ISocket for RepSocket {
     if !self.core.is_running() {
       return Err(ZmqError::InvalidState("Socket is closing".into()));
     }
-    {
-      let guard = self.state.lock();
-      if !matches!(*guard, RepState::ReadyToReceive) {
+    let claim_result = {
+      let mut guard = self.state.lock();
+      match *guard {
+        RepState::ReadyToReceive => {
+          *guard = RepState::Receiving;
+          Ok(RepRecvClaim { state: &self.state, completed: false })
+        }
+        // Another task's receive is in flight (parked at an await): report after yielding, so that a
+        // caller retrying in a loop cannot starve it on a single-threaded runtime.
+        RepState::Receiving => Err(true),
+        RepState::ReceivedRequest(_) => Err(false),
+      }
+    };
+    let mut recv_claim = match claim_result {
+      Ok(claim) => claim,
+      Err(recv_in_flight) => {
+        if recv_in_flight {
+          tokio::task::yield_now().await;
+        }
         return Err(ZmqError::InvalidState("REP socket must call send() before receiving again"));
       }
-    }
+    };
 
     let rcvtimeo_opt = self.core_state_read().options.rcvtimeo;
     let (peer_info, payload_frames) = self.recv_complete_request(rcvtimeo_opt).await?;
     *self.state.lock() = RepState::ReceivedRequest(peer_info);
+    recv_claim.completed = true;
     Ok(payload_frames)
   }
 
